@@ -28,24 +28,24 @@ type RefEntry struct {
 }
 
 type Params struct {
-	Name   string
-	Opts   simcluster.Opts
-	Entry  string
-	DMap   string
-	Keys   []string
-	Alpha  []Ev
-	Depth  int
-	Mirror bool // C04 oracle
-	Visible bool // C09 oracle: results and visibility against the reference model
+	Name       string
+	Opts       simcluster.Opts
+	Entry      string
+	DMap       string
+	Keys       []string
+	Alpha      []Ev
+	Depth      int
+	Mirror     bool // C04 oracle
+	Visible    bool // C09 oracle: results and visibility against the reference model
 	DefaultTTL time.Duration
 }
 
 type Sys struct {
-	P      *Params
-	Cl     *simcluster.Cluster
-	KV     simcluster.KV
-	Ref    map[string]*RefEntry
-	Tokens [][]byte // tokens handed out so far (canonicalisation + unlock/lease arguments)
+	P       *Params
+	Cl      *simcluster.Cluster
+	KV      simcluster.KV
+	Ref     map[string]*RefEntry
+	Tokens  [][]byte // tokens handed out so far (canonicalisation + unlock/lease arguments)
 	LastTok map[string][]byte
 	LastRes simcluster.Res
 	// Untracked keys: an operation whose effect the statements do not fix was applied (Incr on a
@@ -88,8 +88,8 @@ func (s *Sys) defaultExp() int64 {
 
 // Durations used by the alphabet.
 const (
-	durEX     = 2300 * time.Millisecond // EX travels as (fractional) seconds on the wire paths
-	durPX     = 1500 * time.Millisecond
+	durEX = 2300 * time.Millisecond // EX travels as (fractional) seconds on the wire paths
+	durPX = 1500 * time.Millisecond
 	// deliberately not whole seconds: Expire and Lease travel as (fractional) seconds on some
 	// wire paths and as milliseconds on others
 	durExpire = 2500 * time.Millisecond
@@ -694,12 +694,12 @@ func ConformTraces(p *Params, maxLen, cap int) []confx.Trace {
 // Spec wraps the parameters as a clustermc search space.
 func Spec(p *Params) *clustermc.Spec {
 	return &clustermc.Spec{
-		Name:  p.Name,
-		Depth: p.Depth,
-		New:   func() interface{} { return New(p) },
+		Name:   p.Name,
+		Depth:  p.Depth,
+		New:    func() interface{} { return New(p) },
 		Events: func(s interface{}) []Ev { return p.Alpha },
-		Apply: func(s interface{}, e Ev) []Fail { return s.(*Sys).Apply(e) },
-		Canon: func(s interface{}) string { return s.(*Sys).Canon() },
+		Apply:  func(s interface{}, e Ev) []Fail { return s.(*Sys).Apply(e) },
+		Canon:  func(s interface{}) string { return s.(*Sys).Canon() },
 		Check: func(s interface{}) []Fail {
 			sys := s.(*Sys)
 			var fs []Fail
